@@ -358,6 +358,19 @@ func (e *Env) step(st *seqState, c *Caller, op model.Op, cor *Corruption, whoFau
 	illFormed := (mop.Name == "" && (mop.Kind == model.OpPut || mop.Kind == model.OpActivate)) ||
 		(mop.Version == 0 && (mop.Kind == model.OpActivate || mop.Kind == model.OpDeleteVersion))
 
+	// ---- C05: the audit log carries names and versions, never values ----
+	if e.Prof.Oracles["audit-noleak"] {
+		for _, r := range recs {
+			for _, m := range e.markers {
+				for _, enc := range encodings(m) {
+					if bytes.Contains(r.Data, enc) {
+						e.fail("plaintext", "%s: the audit record contains a secret value (marker %q in form %q): %s", desc, m, enc, r.Data)
+					}
+				}
+			}
+		}
+	}
+
 	// ---- C06: audit expectations ----
 	e.judgeAudit(ctx, mop, res, recs, allowed, desc)
 
